@@ -16,7 +16,8 @@ META = {
     'level': 'fault_enumeration',
     'technique': 'exhaustive crash-point (kill before/after every syscall), write-failure and torn-write enumeration on the real binary via ptrace',
     'text': 'For enable and disable over 9 initial file contents: kill at entry and exit of every system call of the whole process life, fail every write-type call with ENOSPC/EIO/EDQUOT, '
-            'tear every write (1, half, n-1 bytes then kill). The file on disk must equal the complete previous or the complete new content after every run; it must never vanish.',
+            'tear every write (1, half, n-1 bytes then kill). The file on disk must equal the complete previous or the complete new content after every run; it must never vanish.'
+            ' Also: preload file as symlink / hard link / mount point / with leftover siblings, own entry sharing a line or indented, descriptors 0-2 closed, sparse files whose size does not fit an int.',
     'note': 'Process death at system-call boundaries and inside shortened writes; power loss with unsynced pages is not modelled. A stale temporary file next to the target is not judged.',
 }
 
